@@ -146,10 +146,101 @@ def _rate_cases(tier, rng):
     return [c for c in out if _rate_cs(float.fromhex(c['inp']['rate']))[0]]
 
 
+def _isz(dt):
+    return {'int16': 2, 'uint8': 1, 'float32': 4, 'int64': 8, '>i2': 2, 'float64': 8}[dt]
+
+
+def _n_passes(hist):
+    return max(1, sum(2 if o == 'inter' else 0 if o == 'partial' else 1 for o in hist))
+
+
+def _stage6_corpus():
+    """forced instances (run first): a header skipped with offset=, a second pass over one reader, a clone of an
+    iterated reader, two live iterators, a compressed reader iterated twice."""
+    R = lambda **kw: {'kind': 'reader', 'inp': kw}
+    return [
+        R(sizes=[3, 1, 2], cs=2, backend='flat', offset=8, nch=2, dtype='int16'),
+        R(sizes=[7], cs=3, backend='array', hist=['iter', 'iter'], report=1),
+        R(sizes=[3, 4], cs=2, backend='flat', hist=['iter', 'clone'], report=1),
+        R(sizes=[7], cs=3, backend='npy', hist=['inter'], report=0),
+        R(sizes=[5], cs=2, backend='flat', offset=3, nch=3, dtype='uint8', pform='str', ext='.dat', hist=['partial', 'iter_nc']),
+        {'kind': 'reader_rate', 'inp': {'sizes': [20, 22, 45], 'rate': (21 / 600.0).hex(), 'rtype': 'float', 'backend': 'flat',
+                                        'offset': 20, 'nch': 1, 'dtype': 'float32', 'pform': 'tuple'}},
+        {'kind': 'reader_rate', 'inp': {'sizes': [40000000], 'rate': (29999.954).hex(), 'rtype': 'float', 'backend': 'random',
+                                        'hist': ['iter', 'clone', 'iter'], 'report': 2}},
+        {'kind': 'mtscomp', 'inp': {'n': 7, 'd': 2, 'threads': 2, 'cache': True, 'hist': ['iter', 'iter'], 'report': 1}},
+        {'kind': 'mtscomp', 'inp': {'n': 12, 'd': 5, 'threads': 1, 'cache': False, 'hist': ['iter_nc', 'clone'], 'report': 1}},
+    ]
+
+
+def _stage6_cases(tier, rng):
+    """Stage 6 axes of the reader clauses: (a) rare options of flat readers -- header offset in bytes around the row
+    size, channel count, dtype / byte order, incomplete last row, form of the paths argument, extension; (b) histories
+    of calls on one reader object, each pass judged: repeated passes, cache on/off, clones, live iterators, abandoned
+    iterators."""
+    quick = tier == 'quick'
+    out = []
+    R = lambda **kw: out.append({'kind': 'reader', 'inp': kw})
+    # (a) every offset 0 .. 2 rows + 1 for small rows
+    for nch in (1, 2, 3):
+        for dt in (('int16', 'uint8', 'float32') if quick else _DTYPES):
+            row = nch * _isz(dt)
+            for off in range(0, 2 * row + 2):
+                sizes = [[4], [2, 3], [1, 2, 2]][(off + nch) % 3]
+                R(sizes=sizes, cs=1 + (off + nch) % 3, backend='flat', offset=off, nch=nch, dtype=dt,
+                  pform=_PFORMS[off % (6 if len(sizes) == 1 else 4)], ext=('.bin', '.dat')[off % 2])
+    # (b) every history of one or two operations, every pass of it observed
+    k = 0
+    for ln in (1, 2) if quick else (1, 2, 3):
+        for hist in itertools.product(_HIST_OPS, repeat=ln):
+            if ln == 3 and rng.random() < 0.5:
+                continue
+            for rep in range(_n_passes(hist)):
+                k += 1
+                be = ('flat', 'array', 'npy')[k % 3]
+                R(sizes=[[3, 4], [7], [5]][k % 3] if be == 'flat' else [[7], [5], [2]][(k // 3) % 3], cs=1 + k % 3,
+                  backend=be, hist=list(hist), report=rep)
+    # random: options and histories together
+    for _ in range(150 if quick else 2500):
+        be = rng.choice(('flat', 'flat', 'array', 'npy'))
+        sizes = [rng.randint(1, 9) for _ in range(rng.randint(1, 3))] if be == 'flat' else [rng.randint(0, 12)]
+        inp = {'sizes': sizes, 'cs': rng.randint(1, 8), 'backend': be}
+        if be == 'flat':
+            inp.update(_rand_flat_opts(rng, len(sizes)))
+        if rng.random() < 0.7:
+            inp['hist'] = _rand_hist(rng)
+            inp['report'] = rng.randrange(_n_passes(inp['hist']))
+        out.append({'kind': 'reader', 'inp': inp})
+    # the same through the sample-rate route
+    for _ in range(40 if quick else 600):
+        rate = 10 ** rng.uniform(-2.7, 0.3)
+        cs = _rate_cs(rate)[1]
+        be = rng.choice(('flat', 'flat', 'array', 'random'))
+        sizes = [rng.randint(1, 3 * cs) for _ in range(rng.randint(1, 3))] if be == 'flat' else [rng.randint(0, 4 * cs + 2)]
+        c = _rr(sizes, rate, be, rng.choice(('float', 'np64')))
+        if be == 'flat':
+            c['inp'].update(_rand_flat_opts(rng, len(sizes)))
+        if rng.random() < 0.7:
+            c['inp']['hist'] = _rand_hist(rng)
+            c['inp']['report'] = rng.randrange(_n_passes(c['inp']['hist']))
+        if _rate_cs(rate)[0]:
+            out.append(c)
+    # compressed readers: histories without live / abandoned iterators (the thread pool is mtscomp's, trusted)
+    for _ in range(30 if quick else 300):
+        n, d = rng.choice((1, 2, 7, 12, 30)), rng.choice((1, 2, 3, 5, 7))
+        if n / d > 20:
+            continue
+        h = _rand_hist(rng, mtscomp=True)
+        out.append({'kind': 'mtscomp', 'inp': {'n': n, 'd': d, 'threads': rng.choice((1, 2, 3)), 'cache': rng.random() < 0.5,
+                                               'hist': h, 'report': rng.randrange(_n_passes(h))}})
+    return out
+
+
 def generate(tier, rng):
     cases = []
     # stage 5 corpus (runs first): readers built from a sample rate
     if tier != 'search':
+        cases += _stage6_corpus()          # stage 6 corpus (runs first)
         cases += _rate_cases(tier, rng)[:5]
     # corpus: boundary cases written down when the model was transcribed
     for n, cs, ov in [(5, 4, 3), (6, 4, 3), (0, 1, 0), (1, 1, 0), (10, 10, 9), (11, 10, 9), (9, 10, 0),
@@ -181,6 +272,7 @@ def generate(tier, rng):
             cs = rng.randint(1, 40)
             cases.append({'kind': 'chunk_bounds', 'inp': {'n': rng.randint(0, 300), 'cs': cs, 'ov': rng.randint(0, cs - 1)}})
         cases += _rate_cases('thorough', rng)
+        cases += _stage6_cases('thorough', rng)
         for _ in range(1500):
             cases.append({'kind': 'reader_bounds', 'inp': {'sizes': [rng.randint(0, 40) for _ in range(rng.randint(1, 5))], 'cs': rng.randint(1, 30)}})
             cases.append({'kind': 'excerpts', 'inp': {'n': rng.randint(0, 200), 'k': rng.randint(2, 9), 'size': rng.randint(0, 30)}})
@@ -233,6 +325,8 @@ def generate(tier, rng):
             cases.append({'kind': 'reader', 'inp': {'sizes': sizes, 'cs': rng.randint(1, 8), 'backend': 'flat'}})
     # real readers over sample rates (stage 5)
     cases += _rate_cases(tier, rng)[5:]
+    # stage 6: reader options and call histories
+    cases += _stage6_cases(tier, rng)
     # compressed readers: n samples at rate 10 Hz, chunk duration d/10 s -> chunks of d samples
     ns = (1, 2, 7, 12, 30) if quick else (1, 2, 3, 7, 12, 13, 30, 31, 50)
     ds = (1, 2, 3, 5, 7, 40) if quick else (1, 2, 3, 4, 5, 7, 11, 40)
@@ -280,6 +374,110 @@ def _ids(np, out, ndim):
             not (out[:, 1] == out[:, 0] + 1).all() or not (out[:, 2] == out[:, 0] + 2).all():
         raise RuntimeError('data_chunk did not return whole rows')
     return [int(x) // 3 for x in out[:, 0]]
+
+
+# ---- stage 6: reader options and call histories ------------------------------------------------------
+# history ops on ONE reader object: every recorded pass must be the model's interval list
+_HIST_OPS = ('iter', 'iter_nc', 'clone', 'clone_nc', 'inter', 'partial', 'clone_first')
+_DTYPES = ('int16', 'uint8', 'float32', 'int64', '>i2', 'float64')
+_PFORMS = ('list', 'tuple', 'strs', 'direct', 'single', 'str')
+
+
+def _rand_hist(rng, mtscomp=False):
+    ops = ('iter', 'iter_nc', 'clone', 'clone_nc') if mtscomp else _HIST_OPS
+    h = [rng.choice(ops) for _ in range(rng.randint(1, 4))]
+    if all(o == 'partial' for o in h):
+        h.append('iter')
+    return h
+
+
+def _rand_flat_opts(rng, nfiles):
+    """rare-but-legal options of a flat reader: header offset (bytes), channel count, dtype, form of the paths argument."""
+    dt = rng.choice(_DTYPES)
+    nch = rng.randint(1, 4)
+    isz = {'int16': 2, 'uint8': 1, 'float32': 4, 'int64': 8, '>i2': 2, 'float64': 8}[dt]
+    row = nch * isz
+    offset = rng.choice((0, 1, row - 1, row, row + 1, 2 * row, 5 * row, rng.randint(0, 40 * row), 512))
+    pf = rng.choice(_PFORMS if nfiles == 1 else _PFORMS[:4])
+    return {'offset': offset, 'nch': nch, 'dtype': dt, 'pform': pf, 'ext': rng.choice(('.bin', '.dat')),
+            'tail': rng.choice((0, 0, 0, rng.randint(0, row - 1)))}
+
+
+def _flat_reader(np, tr, d, i, rate):
+    """files of offset + s * nch * itemsize bytes (sparse; the header is written out), opened as the case says."""
+    from pathlib import Path
+    dt = np.dtype(i.get('dtype', 'int16'))
+    nch, off = i.get('nch', 2), i.get('offset', 0)
+    paths = []
+    for j, s in enumerate(i['sizes']):
+        p = os.path.join(d, 'f%d%s' % (j, i.get('ext', '.bin')))
+        with open(p, 'wb') as f:
+            f.write(b'\xff' * off)
+            f.truncate(off + s * nch * dt.itemsize + i.get('tail', 0))   # tail < one row: an incomplete last row (warning only)
+        paths.append(Path(p))
+    kw = dict(sample_rate=rate, dtype=dt, n_channels=nch)
+    if 'offset' in i:
+        kw['offset'] = off
+    pf = i.get('pform', 'list')
+    if pf == 'direct':
+        return tr.FlatEphysReader(paths, **kw)
+    arg = {'list': paths, 'tuple': tuple(paths), 'strs': [str(p) for p in paths],
+           'single': paths[0], 'str': str(paths[0])}[pf]
+    return tr.get_ephys_reader(arg, **kw)
+
+
+def _drain(it, cap):
+    out = []
+    for a, b in it:
+        out.append([int(a), int(b)])
+        if len(out) > cap:
+            raise RuntimeError('iter_chunks yields without end')
+    return out
+
+
+def _history(r, i, **kw):
+    """Run the history of calls inp['hist'] (default: one pass) on the reader object r; return the reader whose
+    pass number inp['report'] (default: the last) is observed, and that pass. Passes: 'iter' a full iter_chunks(),
+    'iter_nc' with cache=False, 'clone'/'clone_nc' a full pass over a column-sliced clone r[:, [0]] made at that
+    moment, 'clone_first' a clone made before anything else and iterated at that moment, 'inter' two iterators of r
+    alive at once and advanced in turn (two passes), 'partial' an iterator advanced once and abandoned (no pass)."""
+    hist = i.get('hist') or ['iter']
+    cap = 5 * (len(r.chunk_bounds) + 5)
+    passes = []
+    early = r[:, [0]] if 'clone_first' in hist else None
+    for op in hist:
+        if op == 'iter':
+            passes.append((r, _drain(r.iter_chunks(**kw), cap)))
+        elif op == 'iter_nc':
+            passes.append((r, _drain(r.iter_chunks(cache=False), cap)))
+        elif op in ('clone', 'clone_nc'):
+            c = r[:, [0]]
+            passes.append((c, _drain(c.iter_chunks(cache=False) if op == 'clone_nc' else c.iter_chunks(**kw), cap)))
+        elif op == 'clone_first':
+            passes.append((early, _drain(early.iter_chunks(**kw), cap)))
+        elif op == 'partial':
+            it = r.iter_chunks(**kw)
+            next(it, None)
+            del it
+        elif op == 'inter':
+            both = [(r.iter_chunks(**kw), []), (r.iter_chunks(**kw), [])]
+            live = list(both)
+            while live:
+                for pair in list(live):
+                    try:
+                        a, b = next(pair[0])
+                        pair[1].append([int(a), int(b)])
+                    except StopIteration:
+                        live.remove(pair)
+                    if len(pair[1]) > cap:
+                        raise RuntimeError('iter_chunks yields without end')
+            passes += [(r, l) for _, l in both]
+        else:
+            raise ValueError(op)
+    if not passes:
+        passes.append((r, _drain(r.iter_chunks(**kw), cap)))
+    rep = i.get('report')
+    return passes[-1] if rep is None else passes[rep % len(passes)]
 
 
 def run_case(case):
@@ -337,23 +535,18 @@ def run_case(case):
             rate = i['cs'] / 600.0
             sizes = i['sizes']
             if i['backend'] == 'flat':
-                paths = []
-                for j, s in enumerate(sizes):
-                    p = os.path.join(d, 'f%d.bin' % j)
-                    np.zeros((s, 2), dtype=np.int16).tofile(p)
-                    paths.append(p)
-                from pathlib import Path
-                r = get_ephys_reader([Path(p) for p in paths], sample_rate=rate, dtype=np.int16, n_channels=2)
+                from phylib.io import traces as tr
+                r = _flat_reader(np, tr, d, i, rate)
             elif i['backend'] == 'array':
                 r = get_ephys_reader(np.zeros((sizes[0], 2), dtype=np.int16), sample_rate=rate)
             else:
                 p = os.path.join(d, 'a.npy')
                 np.save(p, np.zeros((sizes[0], 2), dtype=np.int16))
                 r = get_ephys_reader(p, sample_rate=rate)
-            b = [int(x) for x in r.chunk_bounds]
-            ivs = [[int(a), int(b_)] for a, b_ in r.iter_chunks()]
-            ns = int(r.n_samples)
-            del r
+            o, ivs = _history(r, i)
+            b = [int(x) for x in o.chunk_bounds]
+            ns = int(o.n_samples)
+            del r, o
             return ('reader', b, ivs, ns)
         finally:
             shutil.rmtree(d, ignore_errors=True)
@@ -366,13 +559,7 @@ def run_case(case):
         d = _tmp()
         try:
             if i['backend'] == 'flat':
-                paths = []
-                for j, s in enumerate(sizes):
-                    p = os.path.join(d, 'f%d.bin' % j)
-                    with open(p, 'wb') as f:
-                        f.truncate(s * 4)      # sparse: s samples x 2 channels x int16
-                    paths.append(Path(p))
-                r = tr.get_ephys_reader(paths, sample_rate=rate, dtype=np.int16, n_channels=2)
+                r = _flat_reader(np, tr, d, i, rate)
             elif i['backend'] == 'array':
                 # a view of one row: the reader only looks at the shape
                 r = tr.get_ephys_reader(np.broadcast_to(np.zeros((1, 2), dtype=np.int16), (sizes[0], 2)), sample_rate=rate)
@@ -382,10 +569,10 @@ def run_case(case):
                 r = tr.get_ephys_reader(p, sample_rate=rate)
             else:
                 r = tr.RandomEphysReader(sizes[0], 2, sample_rate=rate)
-            b = [int(x) for x in r.chunk_bounds]
-            ivs = [[int(a), int(b_)] for a, b_ in r.iter_chunks()]
-            ns = int(r.n_samples)
-            del r
+            o, ivs = _history(r, i)
+            b = [int(x) for x in o.chunk_bounds]
+            ns = int(o.n_samples)
+            del r, o
             return ('reader', b, ivs, ns)
         finally:
             shutil.rmtree(d, ignore_errors=True)
@@ -406,8 +593,8 @@ def run_case(case):
             er = get_ephys_reader(rd)
             cb = [int(x) for x in rd.chunk_bounds]
             bs = int(rd.batch_size)
-            ivs = [[int(a), int(b_)] for a, b_ in er.iter_chunks(cache=i['cache'])]
-            ns = int(er.n_samples)
+            o, ivs = _history(er, i, cache=i['cache'])
+            ns = int(o.n_samples)
             rd.close()
             return ('mtscomp', ns, cb, bs, ivs)
         finally:
@@ -495,6 +682,7 @@ def dist(case, obs):
         out.append('%s.files=%d' % (k, len(i['sizes'])))
         if k == 'reader':
             out.append('reader.backend=' + i['backend'])
+            out += _s6_dist(i)
     elif k == 'reader_rate':
         rate = float.fromhex(i['rate'])
         num, kk = _rate_parts(rate)
@@ -507,12 +695,14 @@ def dist(case, obs):
         from fractions import Fraction
         fp = Fraction(600.0 * rate) - Fraction(600 * num, 1 << kk)
         out.append('rr.float_product=%s' % ('exact' if fp == 0 else 'rounded-up' if fp > 0 else 'rounded-down'))
+        out += _s6_dist(i)
         out.append('rr.chunk_len=%s' % ('1' if _rate_cs(rate)[1] == 1 else '<=200' if _rate_cs(rate)[1] <= 200 else
                                         '<=1e5' if _rate_cs(rate)[1] <= 100000 else '>1e5'))
     elif k == 'mtscomp':
         out.append('mtscomp.chunks=%s' % _bucket(len(obs[2]) - 1))
         out.append('mtscomp.batch=%d' % obs[3])
         out.append('mtscomp.cache=%s' % i['cache'])
+        out += _s6_dist(i)
     elif k == 'excerpts':
         out.append('excerpts.count=%s' % _bucket(len(obs[1])))
     elif k == 'get_excerpts':
@@ -530,6 +720,22 @@ def dist(case, obs):
     return out
 
 
+def _s6_dist(i):
+    out = []
+    if 'offset' in i:
+        row = i.get('nch', 2) * _isz(i.get('dtype', 'int16'))
+        off = i['offset']
+        out.append('flat.offset=%s' % ('0' if off == 0 else '<row' if off < row else 'rows' if off % row == 0 else '>row'))
+        out.append('flat.dtype=' + i.get('dtype', 'int16'))
+        out.append('flat.pform=' + i.get('pform', 'list'))
+        out.append('flat.tail=%s' % (i.get('tail', 0) > 0))
+    if 'hist' in i:
+        out.append('hist.len=%d' % len(i['hist']))
+        out += ['hist.op=' + o for o in sorted(set(i['hist']))]
+        out.append('hist.report=%s' % ('last' if i.get('report') is None else _bucket(i['report'])))
+    return out
+
+
 def _bucket(n):
     return str(n) if n <= 3 else '4-9' if n <= 9 else '10+'
 
@@ -544,7 +750,7 @@ def shrink(case):
             if j != i and _rate_cs(float.fromhex(j['rate']))[0] and not (j['rtype'] == 'int' and float.fromhex(j['rate']) % 1):
                 yield {'kind': k, 'inp': j}
     for key, v in i.items():
-        if isinstance(v, bool):
+        if isinstance(v, bool) or key in ('nch', 'tail', 'report'):
             continue
         if isinstance(v, int):
             for nv in sorted({v // 2, v - 1}):
@@ -565,9 +771,11 @@ def shrink(case):
                 for d in range(len(v)):
                     j = dict(i)
                     j[key] = v[:d] + v[d + 1:]
+                    if key == 'hist' and 'report' in j:
+                        j['report'] = min(i['report'], _n_passes(j[key]) - 1) if i['report'] is not None else None
                     yield {'kind': k, 'inp': j}
             for d in range(len(v)):
-                if v[d] > 0:
+                if isinstance(v[d], int) and v[d] > 0:
                     j = dict(i)
                     j[key] = v[:d] + [v[d] - 1] + v[d + 1:]
                     if k in ('reader', 'reader_rate') and key == 'sizes' and j.get('backend') == 'flat' and v[d] == 1:
